@@ -32,7 +32,8 @@ class Finding(object):
     def line_text(self):
         loc = "%s:%s" % (_rel(self.file) if self.file else "?", self.line if self.line else "?")
         cfg = " config=%s" % (json.dumps(self.config, default=str, sort_keys=True),) if self.config is not None else ""
-        return "%s  %s  %s%s  %s" % (loc, self.construct, self.rule, cfg, self.what)
+        w = self.what if len(self.what) <= 600 else self.what[:600] + " ..."
+        return "%s  %s  %s%s  %s" % (loc, self.construct, self.rule, cfg, w)
 
     def to_json(self):
         return dict(property=self.prop, rule=self.rule, construct=self.construct, what=self.what, file=_rel(self.file) if self.file else None, line=self.line, config=self.config, witness=self.witness, key=self.key())
